@@ -1,6 +1,7 @@
 """C19 -- a cached (cloned) repository is a faithful, loadable copy (Cache.tla)."""
 import json, os
 import vlib
+import lifecyclelib
 from vlib import tlc, make_cfg, vh, workdir, write_ndjson, read_ndjson, Verdict, log
 
 PID = "C19"
@@ -77,11 +78,14 @@ def run(tier, seed):
            "samples": samples, "evaluations": stats["evaluations"], "distinct_nontrivial": len(stats["nontrivial"]),
            "rule": "cases = every state of Cache.tla: every subset of the three targets (or none named = all) x root chain requested or not x trusted root version 1..3 x one corrupted source target or none, alternating consistent_snapshot; the source repository has targets with a space / non-ASCII / sub-directory names and a delegated role named 'role/ü x'; after cache() the directory tree is listed, the copy is loaded by a client holding the same root (HTTP-like transport and file:// URLs), versions compared and every requested target read back; non-trivial = a corrupted target, the root chain, or a proper subset",
            "exhaustive": True}
+    cov.update(lifecyclelib.run_into(v, PID, tier, seed))
     return v.finish("model_checking", cov, ["TLC enumerates the cases and states which must succeed and which root files must exist; confinement, byte identity and loadability are judged on the real directories",
                                             "tuftool clone is not exercised (library path only); F14 is a recorded finding"])
 
 
 def replay(path, seed):
+    if json.load(open(path))["replay"].get("lifecycle"):
+        return lifecyclelib.replay(path, PID, seed)
     rp = json.load(open(path))["replay"]
     w = workdir("c19")
     cp = os.path.join(w, "replay.ndjson")
